@@ -561,6 +561,8 @@ def build_evidence(mod, prop, tier, seed, total, digests, reach, samples, wall, 
                                if not k.startswith(('fault:', 'probe:', 'gen:')) and k not in ('evals', 'steps')),
     }
     cov.update(extra_cov(extra))
+    if hasattr(mod, 'evidence_extra'):
+        cov.update(mod.evidence_extra(total))
     return {
         'property_id': prop, 'tier': tier, 'seed': seed, 'level': 'exploration',
         'coverage': cov, 'assumptions': desc.get('assumptions', []),
